@@ -489,7 +489,9 @@ func (fs *fileStore) flush(out *os.File, fields core.Fields, filter goexpr.Expr,
 			}
 		}()
 
-		_, err = fs.iterate(fields, ms, !shouldSort, !disallowRaw, write)
+		// raw pass-through is not possible when sorting: doWrite needs the decoded
+		// columns to build the sortable row (a raw row would be dropped)
+		_, err = fs.iterate(fields, ms, !shouldSort, !disallowRaw && !shouldSort, write)
 		return
 	}
 
